@@ -185,6 +185,7 @@ func drawSrv(rt *rapid.T, p *Plan, prop, tier string) *Plan {
 		nj = 0
 	}
 	last := 0
+	far := false
 	for i := 0; i < nj; i++ {
 		j := SrvJoiner{Kind: rapid.IntRange(0, 1).Draw(rt, "srv_jkind")}
 		if prop == "C20" && i == 0 && rapid.IntRange(0, 2).Draw(rt, "srv_jkind20") != 0 {
@@ -206,6 +207,7 @@ func drawSrv(rt *rapid.T, p *Plan, prop, tier string) *Plan {
 		// requests of Server.requestBlocks and the queue's refusal of blocks beyond its capacity get work to do
 		if i == 0 && rapid.IntRange(0, 5).Draw(rt, "srv_jfar") == 0 {
 			j.AtMS = rapid.IntRange(46, 60).Draw(rt, "srv_jfarat")*1000 + 137
+			far = true
 		}
 		sp.Joiners = append(sp.Joiners, j)
 		last = max(last, j.AtMS+j.RestartMS)
@@ -225,6 +227,10 @@ func drawSrv(rt *rapid.T, p *Plan, prop, tier string) *Plan {
 	// a joiner gets its full catch-up window inside the run
 	if nj > 0 {
 		sp.DurationMS = max(sp.DurationMS, last+16000)
+		if far {
+			// (its catch-up bound grows with the gap: up to 11 more block times for a gap of 64 blocks)
+			sp.DurationMS += 11000
+		}
 	}
 	if sp.Observers > 0 && rapid.IntRange(0, 3).Draw(rt, "srv_obsrestart") == 3 {
 		sp.Restart = append(sp.Restart, Span{Node: sp.Validators, FromMS: rapid.IntRange(2000, sp.DurationMS-2000).Draw(rt, "srv_restartat")})
